@@ -196,6 +196,11 @@ typecommonreal(struct type *t1, unsigned w1, struct type *t2, unsigned w2)
 		return &typefloat;
 	t1 = typepromote(t1, w1);
 	t2 = typepromote(t2, w2);
+	/* an enumerated type wider than int converts like its underlying type */
+	if (t1->kind == TYPEENUM)
+		t1 = t1->base;
+	if (t2->kind == TYPEENUM)
+		t2 = t2->base;
 	if (t1 == t2)
 		return t1;
 	if (t1->u.basic.issigned == t2->u.basic.issigned)
